@@ -64,5 +64,5 @@ VecB == {[Base EXCEPT !.ts = a, !.tf = c, !.hasRule = h, !.cliFilter = cf, !.bld
             cr \in {-1, 4}, ba \in {-1, 9}}
 \* group C: concurrency and fail-fast
 VecC == {[Base EXCEPT !.cliConc = cc, !.bldConc = bc, !.cliFF = cf, !.bldFF = bf]
-          : cc \in {-1, 2}, bc \in {0, -1, 3}, cf \in BOOLEAN, bf \in BOOLEAN}
+          : cc \in {-1, 2, 5, 100}, bc \in {0, -1, 3}, cf \in BOOLEAN, bf \in BOOLEAN}   \* CLI below and above the builder value / the default 64
 =============================================================================
